@@ -159,7 +159,34 @@ class RegionMonitor:
             self.max_ctx = total
 
 
-def feed(cls, data, cuts, empties=(), queries=False, monitor=True, per_chunk=None):
+class Carrier:
+    """How a chunk is handed to eat_chunk: 'bytes' (fresh immutable object), 'bytearray' (ONE bytearray object, resized and
+    refilled in place for every chunk - the readinto() idiom) or 'memoryview' (slices of one fixed buffer).  After every
+    eat_chunk the buffer is overwritten, so anything the inspector kept by reference instead of by value shows at once."""
+
+    def __init__(self, kind, maxlen):
+        self.kind = kind
+        self.buf = bytearray(max(maxlen, 1)) if kind == 'memoryview' else bytearray()
+        self.n = 0
+
+    def put(self, b):
+        if self.kind == 'bytes':
+            return b
+        if self.kind == 'bytearray':
+            self.buf[:] = b
+            return self.buf
+        self.n = len(b)
+        self.buf[:self.n] = b
+        return memoryview(self.buf)[:self.n]
+
+    def scribble(self):
+        if self.kind == 'bytearray':
+            self.buf[:] = b'\xa5' * len(self.buf)
+        elif self.kind == 'memoryview':
+            self.buf[:self.n] = b'\xa5' * self.n
+
+
+def feed(cls, data, cuts, empties=(), queries=False, monitor=True, per_chunk=None, carrier='bytes', ctor_kw=None):
     """Drive a real inspector of class cls over data cut at `cuts`.
 
     Returns dict(verdict=..., raised=type name or None, monitor=RegionMonitor, trace=[...]).
@@ -167,21 +194,24 @@ def feed(cls, data, cuts, empties=(), queries=False, monitor=True, per_chunk=Non
     queries: call verdict() (incl. safety_check) after every chunk.
     per_chunk: optional callback(insp, pos) after every chunk.
     """
-    insp = cls()
+    insp = cls(**(ctor_kw or {}))
     mon = RegionMonitor(data) if monitor else None
     raised = None
     n = len(data)
     empties = set(empties)
-    for idx, (a, b) in enumerate(chunks_of(n, cuts)):
+    pieces = chunks_of(n, cuts)
+    car = Carrier(carrier, max([b - a for a, b in pieces] or [1]))
+    for idx, (a, b) in enumerate(pieces):
         if idx in empties:
             try:
                 insp.eat_chunk(b'')
             except BaseException as e:  # noqa
                 raised = raised or type(e).__name__
         try:
-            insp.eat_chunk(data[a:b])
+            insp.eat_chunk(car.put(data[a:b]))
         except BaseException as e:  # noqa
             raised = raised or type(e).__name__
+        car.scribble()
         if mon:
             mon.check(insp, b)
         if queries:
@@ -200,20 +230,28 @@ def feed(cls, data, cuts, empties=(), queries=False, monitor=True, per_chunk=Non
 
 
 class RecordingSource(io.BytesIO):
-    def __init__(self, data):
+    """plan: optional list of piece lengths; when given, read(n) returns at most the next planned piece (a pipe- or
+    socket-like source that hands back short reads), never an empty result before the real end."""
+
+    def __init__(self, data, plan=None):
         super().__init__(data)
         self.reads = []
+        self.plan = list(plan) if plan else None
 
     def read(self, n=-1):
+        if self.plan and n != 0:
+            want = self.plan.pop(0)
+            n = want if n is None or n < 0 else min(n, want)
         r = super().read(n)
         self.reads.append((n, len(r)))
         return r
 
 
-def feed_wrapper(data, cuts, allowed=None, expected=None, queries=False, monitor=True, empties=()):
-    """Drive InspectWrapper.read() with read sizes given by the cut positions."""
+def feed_wrapper(data, cuts, allowed=None, expected=None, queries=False, monitor=True, empties=(), short_reads=False):
+    """Drive InspectWrapper.read() with read sizes given by the cut positions; with short_reads the reader always asks
+    for 64 KiB and it is the source that returns the scheduled piece sizes."""
     F = fi()
-    src = RecordingSource(data)
+    src = RecordingSource(data, plan=[b - a for a, b in chunks_of(len(data), cuts)] if short_reads else None)
     w = F.InspectWrapper(src, expected_format=expected, allowed_formats=allowed)
     mons = {i.NAME: RegionMonitor(data) for i in w._inspectors} if monitor else {}
     decisions = []
@@ -225,7 +263,7 @@ def feed_wrapper(data, cuts, allowed=None, expected=None, queries=False, monitor
         for idx, (a, b) in enumerate(chunks_of(n, cuts)):
             if idx in empties:
                 w.read(0)
-            out.append(w.read(b - a))
+            out.append(w.read(max(b - a, 65536) if short_reads else b - a))
             for i in w._inspectors:
                 if monitor and i not in w._errored_inspectors:
                     mons[i.NAME].check(i, b)
